@@ -41,7 +41,7 @@ ASSUMPTIONS = [
     "every Fock-state pair coupled within K x (word degree) shifts is non-degenerate with |dE| >= 1/4 (constructed and verified by enumeration)",
     "comparison restricted to input states at least K x degree + 1 away from the truncation edge",
 ]
-REQUIRED_CLASSES = {"all": ["modes>=2", "has-fermion", "has-boson", "form=scalar", "form=blocks", "form=blocks3", "form=blocks_fd", "interaction", "operator-mask", "matrix-valued-mask"]}
+REQUIRED_CLASSES = {"all": ["modes>=2", "has-fermion", "has-boson", "form=scalar", "form=blocks", "form=blocks3", "form=blocks_fd", "form=blocks_cn", "interaction", "operator-mask", "matrix-valued-mask"]}
 
 MODE_SETS = [
     [["b", "a"]], [["b", "a"], ["s", "s"]], [["f", "f"], ["f", "g"]], [["b", "a"], ["f", "f"]], [["f", "f"], ["f", "g"], ["f", "h"]],
@@ -57,7 +57,10 @@ LAYOUTS = {
     "blocks": ([Fraction(0), Fraction(405, 32)], [[1, 1], [1, -1]], ()),
     "blocks_fd": ([Fraction(0), Fraction(405, 32)], [[1, 1], [1, -1]], (1,)),
     "blocks3": ([Fraction(0), Fraction(405, 32), Fraction(1003, 64)], [[1, 1, 2], [1, -1, 1], [2, 1, 3]], ()),
+    # the perturbation inside the blocks, and a purely number-conserving inter-block coupling with a non-real coefficient, +-(2i/3) N_0
+    "blocks_cn": ([Fraction(0), Fraction(405, 32)], [[1, 0], [0, -1]], ()),
 }
+GN = {"blocks_cn": Fraction(2, 3)}
 
 
 @st.composite
@@ -79,7 +82,7 @@ def _case(draw, tier):
     return {
         "modes": modes, "K": K, "words": words, "freq_order": list(perm),
         "interaction": draw(st.sampled_from([None, None, "kerr", "cross"])),
-        "form": draw(st.sampled_from(["scalar", "scalar", "matrix1", "blocks", "matrix2mask", "blocks3", "blocks_fd"])),
+        "form": draw(st.sampled_from(["scalar", "scalar", "matrix1", "blocks", "matrix2mask", "blocks3", "blocks_fd", "blocks_cn"])),
         # operator-valued elimination mask: eliminate only the shifts of these perturbation words (and their adjoints)
         "mask_words": sorted(draw(st.sets(st.integers(0, n_words - 1), min_size=1))) if draw(st.integers(0, 2)) == 0 else None,
         # symbolic-power mask  a**(k+p) + Dagger(a)**(k+p): eliminate every pure shift of the first boson/ladder mode by >= p
@@ -270,14 +273,22 @@ def check_case(case, enforce_all=False):
                 pick = None
                 idx = (0, 0)
             else:
-                if form not in ("blocks3", "blocks_fd") or space.D > 260:
+                if form not in ("blocks3", "blocks_fd", "blocks_cn") or space.D > 260:
                     form = "blocks"
                 # copies of the mode system with shifted energies as blocks, coupled by the perturbation: every block
                 # pair has its own energy offset, so the solver is called for several block pairs with different H_ii - H_jj
                 offsets, C, fd = LAYOUTS[form]
                 nb_ = len(offsets)
                 h0 = sympy.diag(*[H0 + sympy.Rational(o.numerator, o.denominator) for o in offsets])
-                h1 = sympy.Matrix(nb_, nb_, lambda i, j: C[i][j] * H1)
+                gn = GN.get(form)
+                if gn:
+                    from pymablock.number_ordered_form import NumberOperator
+
+                    N0 = NumberOperator(b["ops"][0])
+                    cpl = sympy.I * sympy.Rational(gn.numerator, gn.denominator) * N0
+                    h1 = sympy.Matrix(nb_, nb_, lambda i, j: C[i][j] * H1 + (cpl if i < j else -cpl if i > j else 0))
+                else:
+                    h1 = sympy.Matrix(nb_, nb_, lambda i, j: C[i][j] * H1)
                 kw_ = {"fully_diagonalize": list(fd)} if fd else {}
                 Ht, U, Ui = block_diagonalize([h0, h1], subspace_indices=list(range(nb_)), **kw_)
                 pick = lambda x: x if (x is zero or x is one) else x[0, 0]  # noqa: E731
@@ -319,6 +330,12 @@ def check_case(case, enforce_all=False):
         nblk = len(offsets)
         E = np.concatenate([E0 + float(o) for o in offsets])
         T = np.block([[C[i][j] * H1m for j in range(nblk)] for i in range(nblk)])
+        if GN.get(form):
+            Nm = np.diag(np.array([float(space.occ(st_)[0]) for st_ in space.states])) * float(GN[form])
+            for i in range(nblk):
+                for j in range(nblk):
+                    if i != j:
+                        T[i * D : (i + 1) * D, j * D : (j + 1) * D] += (1j if i < j else -1j) * Nm
         S = np.zeros((nblk * D, nblk * D), dtype=bool)
         for q in range(nblk):
             # a fully diagonalised block keeps only its Fock-diagonal elements
